@@ -152,7 +152,7 @@ def is_unsigned(n):
     return "unsigned" in t or t in ("tsk_size_t", "size_t", "uint64_t", "uint32_t")
 
 
-def presence(ctx, seen, rule="GUARD-PRESENT", funcs=None):
+def presence(ctx, seen, rule="GUARD-PRESENT", funcs=None, P=None):
     """Every guard instance frozen in tables/guards.json still exists (count per (function, code))."""
     ctx.rule(rule, "every range guard confirmed by reading (tables/guards.json) is still present in its function")
     with open(TABLE) as fh:
@@ -162,8 +162,22 @@ def presence(ctx, seen, rule="GUARD-PRESENT", funcs=None):
         if funcs is not None and fnname not in funcs:
             continue
         have = seen.get((fnname, code), 0)
+        via = ""
+        if have < cnt and P is not None:
+            # a guard extracted into a static helper that the function calls still counts (one level)
+            fn = P.func(fnname)
+            if fn is not None:
+                from sa.expr import calls as _calls, callee as _callee
+                helpers = {_callee(c) for c in _calls(fn.body)}
+                for h in sorted(x for x in helpers if x):
+                    hf = P.func(h, fn.tu)
+                    if hf is not None and hf.static and hf.tu == fn.tu:
+                        extra = len([g for g in find_guards(P, hf) if code in g.codes])
+                        if extra:
+                            have += extra
+                            via = " (incl. helper %s)" % h
         ctx.ob(rule, "%s|%s" % (fnname, code), have >= cnt, "c/tskit (%s)" % fnname,
-               "%d guard(s) raising %s in %s (confirmed %d)" % (have, code, fnname, cnt))
+               "%d guard(s) raising %s in %s%s (confirmed %d)" % (have, code, fnname, via, cnt))
 
 
 def freeze(P):
